@@ -50,6 +50,10 @@ type MTProto struct {
 	responseChannels *utils.SyncIntObjectChan
 	expectedTypes    *utils.SyncIntReflectTypes // uses for parcing bool values in rpc result for example
 
+	// migration to another DC (PHONE_MIGRATE_X) replaces the connection and the address. several requests can
+	// be answered with this error at once, so only one caller at a time is allowed to do it
+	migrateMutex sync.RWMutex
+
 	// идентификаторы сообщений, нужны что бы посылать и принимать сообщения.
 	seqNoMutex sync.Mutex
 	seqNo      int32
@@ -184,7 +188,12 @@ func (m *MTProto) connect(ctx context.Context) error {
 }
 
 func (m *MTProto) makeRequest(data tl.Object, expectedTypes ...reflect.Type) (any, error) {
+	// if another caller is moving the client to another DC right now, wait until it's done: the request must
+	// not be written to the connection which is being closed
+	m.migrateMutex.RLock()
+	sentTo := m.addr
 	resp, err := m.sendPacket(data, expectedTypes...)
+	m.migrateMutex.RUnlock()
 	if err != nil {
 		return nil, errors.Wrap(err, "sending message")
 	}
@@ -196,7 +205,7 @@ func (m *MTProto) makeRequest(data tl.Object, expectedTypes ...reflect.Type) (an
 	case *objects.RpcError:
 		realErr := RpcErrorToNative(r)
 
-		err = m.tryToProcessErr(realErr.(*ErrResponseCode))
+		err = m.tryToProcessErrOf(realErr.(*ErrResponseCode), sentTo)
 		if err != nil {
 			return nil, err
 		}
@@ -497,6 +506,11 @@ func reqMsgIDOf(msg messages.Common) int {
 // игнорируется (потому что гарантируется, что обработка ошибки надежна, и параллельная ошибка это что-то из
 // ряда вон выходящее)
 func (m *MTProto) tryToProcessErr(e *ErrResponseCode) error {
+	return m.tryToProcessErrOf(e, m.addr)
+}
+
+// tryToProcessErrOf is tryToProcessErr for an error answering a request which was sent to address sentTo
+func (m *MTProto) tryToProcessErrOf(e *ErrResponseCode, sentTo string) error {
 	switch e.Message {
 	case "PHONE_MIGRATE_X":
 		dcID, ok := e.AdditionalInfo.(int)
@@ -507,6 +521,15 @@ func (m *MTProto) tryToProcessErr(e *ErrResponseCode) error {
 		newIP, found := m.dclist[dcID]
 		if !found {
 			return errors.Wrapf(e, "DC with id %v not found", e.AdditionalInfo)
+		}
+
+		m.migrateMutex.Lock()
+		defer m.migrateMutex.Unlock()
+
+		if m.addr == newIP && sentTo != newIP {
+			// the request was sent to the old DC, and while its answer was on the way another caller got the
+			// same error and has already moved the client: the request just has to be repeated
+			return nil
 		}
 
 		m.addr = newIP
